@@ -1,6 +1,7 @@
 package props
 
 import (
+	"bytes"
 	"crypto/elliptic"
 	"encoding/hex"
 	"fmt"
@@ -20,7 +21,7 @@ func init() {
 		Rule: "RateLimitedAttester.VerifyRequest on honest requests (made by pat-go's client and by the harness's own signer), every single-bit flip of every field of one honest request per client (request key, name key id, ciphertext, signature, blind, client key: exhaustive; every fourth flip also on a request object decoded from the wire and marshalled before the tampering, so a stale encoding cache cannot stand in for the fields), signatures by unrelated keys, signatures of other requests, (r, N-s), r or s in {0, N}, wrong/shifted blinds, leading-zero blinds, wrong or malformed client and request keys. " +
 			"Oracle: accept iff crypto/ecdsa.Verify(request key, SHA-384(type||request_key||name_key_id||len16||ciphertext), r, s) and request_key == compress(hash_to_field-blind(client key, blind, 0x0003||\"ClientBlind\")) computed by the reference; on reject: non-nil error, zero Put calls and every cached state snapshot unchanged; on accept: state is registered for this client only and no other client's snapshot changes. " +
 			"distinct_nontrivial = distinct (case class, field, bit) keys",
-		Floors:      []string{"accept_agree", "reject_agree", "reject_bad_signature", "reject_key_mismatch", "reject_malformed_key", "bitflips", "tampered_after_marshal", "tampered_after_original_accepted", "state_unchanged_on_reject", "state_registered_on_accept", "stream_accept_agree", "stream_reject_agree"},
+		Floors:      []string{"accept_agree", "reject_agree", "reject_bad_signature", "reject_key_mismatch", "reject_malformed_key", "bitflips", "tampered_after_marshal", "tampered_after_original_accepted", "state_unchanged_on_reject", "state_registered_on_accept", "stream_accept_agree", "stream_reject_agree", "double_faults"},
 		Assumptions: []string{"request structs have the shapes the wire decoder produces (49/32/1..65535/96 bytes)", "crypto/ecdsa and crypto/elliptic of the Go standard library are the reference"},
 		Run:         runC06,
 	})
@@ -452,6 +453,28 @@ func runC06(c *core.Ctx) {
 			cs.req.RequestKey = clone(other.signer.RequestKeyEnc)
 			cs.req.Signature = other.signer.sign(r, t3SignedMessage(other.signer.RequestKeyEnc, h.nameKeyID, h.ct))
 			w.call(cs)
+			// two things wrong at once: whatever order the checks run in, the request is refused and nothing is registered
+			{
+				badSig := func(cs *c06Case) { cs.req.Signature = clone(cs.req.Signature); cs.req.Signature[95] ^= 1 }
+				wrongBlind := func(cs *c06Case) { cs.blind = ScalarBytes(r, N, 48) }
+				otherClient := func(cs *c06Case) { cs.clientKey = clone(other.signer.ClientKeyEnc) }
+				malformedClient := func(cs *c06Case) { cs.clientKey = append([]byte{2}, bytes.Repeat([]byte{0xff}, 48)...) }
+				hugeBlind := func(cs *c06Case) { cs.blind = r.Bytes(200) }
+				badReqKey := func(cs *c06Case) { cs.req.RequestKey = append([]byte{3}, bytes.Repeat([]byte{0xff}, 48)...) }
+				combos := map[string][]func(*c06Case){
+					"bad-signature+wrong-blind": {badSig, wrongBlind}, "bad-signature+other-client-key": {badSig, otherClient}, "bad-signature+malformed-client-key": {badSig, malformedClient},
+					"wrong-blind+other-client-key": {wrongBlind, otherClient}, "wrong-blind+malformed-client-key": {wrongBlind, malformedClient}, "huge-blind+bad-signature": {hugeBlind, badSig},
+					"malformed-request-key+malformed-client-key": {badReqKey, malformedClient}, "malformed-request-key+wrong-blind": {badReqKey, wrongBlind},
+				}
+				for name, mods := range combos {
+					cs = h.mk("double-fault:" + name)
+					for _, f := range mods {
+						f(cs)
+					}
+					w.call(cs)
+					c.Class("double_faults")
+				}
+			}
 			c.Distinctf("forgeries:%d:%d", rep, ci)
 		}
 	}
